@@ -332,6 +332,11 @@ pub fn run_model(cfg: &ScenCfg, out: &mut RunOut) {
         } else if s.deframer.pending() >= 7 {
             out.probe("cut_in_body");
         }
+        if chance(1, 8) {
+            // the link is idle for a long time (also in the middle of a frame): nothing may depend on it
+            kernel::advance([1_000_000_000u64, 2_000_000_000, 2_000_000_001, 4_000_000_000, 30_000_000_000, 3_600_000_000_000][choose(6) as usize]);
+            out.probe(if s.deframer.pending() > 0 { "long_idle_mid_frame" } else { "long_idle_between_frames" });
+        }
         s.peer.write(&chunk);
         kernel::settle();
         // model
@@ -390,6 +395,12 @@ pub fn run_model(cfg: &ScenCfg, out: &mut RunOut) {
                 );
                 for p in props {
                     out.violate(p, &rule, detail.clone());
+                }
+                // the same deviation may also show in what the handlers were asked to do
+                let j: Vec<(u8, Call)> = rig.journal.lock().unwrap()[journal_pos..].to_vec();
+                let expected_calls: Vec<crate::model::server::Expected> = exps.iter().map(|(_, e)| e.clone()).collect();
+                if let Err(e) = check_journal(&j, &expected_calls, out) {
+                    out.violate("C02", "handler_journal", format!("session {} action {}: {} (journal segment: {:?})", si, action, e, &j[..j.len().min(6)]));
                 }
                 break;
             } else {
@@ -597,6 +608,11 @@ pub fn run_chunking(cfg: &ScenCfg, out: &mut RunOut) {
             }
         }
         let chunk = &stream[pos..*c];
+        if chance(1, 8) {
+            // a long pause before this chunk, possibly in the middle of a frame
+            kernel::advance([1_000_000_000u64, 2_000_000_000, 2_000_000_001, 4_000_000_000, 30_000_000_000, 3_600_000_000_000][choose(6) as usize]);
+            out.probe(if deframer.pending() > 0 { "long_idle_mid_frame" } else { "long_idle_between_frames" });
+        }
         if cfg.faults && chance(1, 4) {
             pb.write_delayed(chunk, 1 + choose(5_000_000) as u64);
             kernel::advance(6_000_000);
